@@ -19,6 +19,7 @@ class Batch:
 
     def __init__(self):
         self.ops, self.exp, self.info = [], [], []
+        self.aliasing = []        # (function, op, (path, path)): one mutable object reachable along two paths
 
     def fn(self, name, f, *args):
         self.ops.append('Y.fn ' + name + ' ' + ' '.join(PC.enc(a) for a in args))
@@ -51,6 +52,9 @@ class Batch:
         res = (out[0], PC.enc(out[1])) if out[0] == 'ok' else out
         self.exp.append((res, ('self', PC.enc(obj))))
         self.info.append(f'{clsname}.{name}')
+        al = PC.aliases(obj)
+        if al is not None and len(self.aliasing) < 3:
+            self.aliasing.append((f'{clsname}.{name}', self.ops[-1][:200], al))
         return out
 
     def run(self, driver):
@@ -664,6 +668,12 @@ def validate(ctx, areas):
                                    'exception': repr(e), 'where': traceback.format_exc()[-600:]}})
         bad = b.run(driver)
         bad = [x for x in bad if not x[1].startswith('Y.skipped')]
+        for fn, op, (p1, p2) in b.aliasing:
+            fails.append({'key': f'translated:{area}', 'kind': 'broken-correspondence',
+                          'diff': {'what': 'aliasing: one mutable object of the real state is reachable along two paths; the '
+                                           'translated program (value semantics) holds two values there',
+                                   'function': fn, 'op': op, 'paths': [p1, p2]}})
+        ctx.count('translated_alias_checks', sum(1 for e in b.exp if isinstance(e[1], tuple)))
         for fn, op, line, why in getattr(b, 'prefailed', []):
             fails.append({'key': f'translated:{area}', 'kind': 'broken-correspondence',
                           'diff': {'what': 'the translated program (Generated/PyCore.lean under MiniPy) and the real function disagree',
